@@ -26,7 +26,7 @@ from pyarrow import ipc
 
 from harness import c01
 from harness.c07 import canon_impl_extras, impl_dispatch, model_dispatch, model_dispatch_many
-from harness.common import rpcutil, svcgen
+from harness.common import opsvc, rpcutil, svcgen
 from harness.common.lean import s2j
 from harness.common.svcgen import Config
 
@@ -46,6 +46,12 @@ OBLIGATIONS = [
     "VgiVerif.C08.processStep_eq_engine",
     "VgiVerif.C08.processExchangeStep_eq_engine",
     "VgiVerif.C08.C08_engine",
+    "VgiVerif.C08.C08_sink_write_through",
+    "VgiVerif.C08.C08_sink_conservation",
+    "VgiVerif.C08.C08_sink_conservation_init",
+    "VgiVerif.C08.C08_sink_unary",
+    "VgiVerif.C08.C08_sink_buffer_then_flush",
+    "VgiVerif.C08.sink_shape_recognised",
     "VgiVerif.C08.C08_robust",
     "VgiVerif.C08.C08_robust_handling",
     "VgiVerif.C08.C08_rpcError_only_exception",
@@ -365,6 +371,273 @@ def check_one(ctx: Any, desc: dict[str, Any], script: list[list[Any]], only: str
                     ctx.mismatch(ccase, c01.obs_of(mod["http"]), c01.obs_of(obs), "http (cap): observation vs Lean C08.HttpR")
             if "spec" in mod and mod["spec"] != spec:
                 ctx.mismatch(ccase, mod["spec"], spec, "Lean Spec.emitted… vs the harness's emitted sequence")
+
+
+# ------------------------------------------------------------------------------------------ (a') result / output schema shapes, op-level steps, on_cancel
+
+
+def step_events(ops: list[list[Any]], producer: bool, empty: bool) -> tuple[list[Any], bool]:
+    """Events one process() call emits (property text + the documented collector rules), and whether the stream is over."""
+    evs: list[Any] = []
+    logs: list[Any] = []
+    emitted = False
+    finished = False
+
+    def fail(err: list[Any]) -> tuple[list[Any], bool]:
+        return logs + [err], True                     # a failed call returns no batch; its logs are delivered before the error
+
+    for op in ops:
+        if op[0] == "log":
+            evs.append(clog(op[1]))
+            logs.append(clog(op[1]))
+        elif op[0] == "emit":
+            if emitted:
+                return fail(["error", "RuntimeError", "RuntimeError: Only one data batch may be emitted per call", None])
+            emitted = True
+            b = op[1]
+            evs.append(["data", None, 0, sorted([list(i) for i in (b.get("meta") or {}).items()])] if empty else cdata(b))
+        elif op[0] == "finish":
+            if not producer:
+                return fail(FINISH_X)
+            finished = True
+        elif op[0] == "raise":
+            return fail(cerr(op[1]))
+    if finished:
+        return evs + [["end"]], True
+    if not emitted:
+        return fail(NO_DATA)
+    return evs, False
+
+
+def sessions_of(events: list[Any]) -> list[dict[str, Any]]:
+    """Server instrumentation split per method invocation: which steps ran, whether on_cancel ran."""
+    out: list[dict[str, Any]] = []
+    for e in events:
+        if e[0] == "invoke":
+            out.append({"name": e[1], "steps": [], "cancel": False})
+        elif e[0] == "process" and out:
+            out[-1]["steps"].append(e[2])
+        elif e[0] == "on_cancel" and out:
+            out[-1]["cancel"] = True
+    return out
+
+
+def emitted_session(m: dict[str, Any], sess: dict[str, Any]) -> list[Any]:
+    """What the service emitted during one call, given which of its steps the server actually ran."""
+    if m["kind"] == "unary":
+        out = m["out"]
+        return [clog(x) for x in m["logs"]] + [["value", None if m.get("ret") == "none" else out["ok"]] if "ok" in out else cerr(out["raise"])]
+    evs = [clog(x) for x in m.get("init_logs", [])]
+    if m.get("init", "ok") != "ok":
+        return evs + [cerr(m["init"]["raise"])]
+    if m.get("header"):
+        evs.append(["header", m.get("hdr", 0)])
+    producer = m["kind"] == "producer"
+    over = False
+    for k in sess["steps"]:
+        if k < len(m["steps"]):
+            ops = opsvc.step_ops(m["steps"][k])
+        else:
+            ops = [["finish"]] if producer else [["emit", {"id": 1000 + k}]]
+        e, over = step_events(ops, producer, m.get("schema") == "empty")
+        evs += e
+        if over:
+            break
+    if sess["cancel"]:
+        evs += [clog(x) for x in m.get("cancel_logs", [])]
+    return evs
+
+
+def gen_opstep(rng: Any, k: int, last: bool, exchange: bool) -> dict[str, Any]:
+    ops: list[list[Any]] = [["log", x] for x in gen_logs(rng, (0, 1, 2))]
+    ops.append(["emit", c01.gen_batch(rng, 10 + k)])
+    ops += [["log", x] for x in gen_logs(rng, (0, 0, 1, 2))]
+    r = rng.random()
+    if last and r < 0.3:
+        ops.append(["raise", gen_exc(rng)])
+    elif last and r < 0.5 and not exchange:
+        ops.append(["finish"])
+    elif last and r < 0.6:
+        ops = ops[:rng.randrange(len(ops) + 1)] + [["raise", gen_exc(rng)]]
+    rng_shuffle_tail = rng.random() < 0.3
+    if rng_shuffle_tail and len(ops) > 2:
+        i = rng.randrange(len(ops) - 1)
+        if ops[i][0] != "raise" and ops[i + 1][0] not in ("raise", "finish"):
+            ops[i], ops[i + 1] = ops[i + 1], ops[i]
+    return {"ops": ops}
+
+
+def shape_service(rng: Any) -> tuple[dict[str, Any], list[list[Any]]]:
+    """unary `-> None`, empty-output-schema streams, logs from on_cancel — with logs everywhere a log can be emitted."""
+    def stream(name: str, kind: str, schema: str, n: int) -> dict[str, Any]:
+        return {"name": name, "kind": kind, "schema": schema, "header": rng.random() < 0.3, "hdr": rng.randrange(50),
+                "init_logs": gen_logs(rng, (0, 1, 2)), "init": "ok",
+                "steps": [gen_opstep(rng, k, k == n - 1, kind == "exchange") for k in range(n)], "cancel_logs": gen_logs(rng, (1, 2, 3))}
+
+    methods = [
+        {"name": "vn", "kind": "unary", "ret": "none", "logs": gen_logs(rng, (1, 2, 3)), "out": {"ok": 0}},
+        {"name": "vne", "kind": "unary", "ret": "none", "logs": gen_logs(rng, (1, 2, 3)), "out": {"raise": gen_exc(rng)}},
+        {"name": "vi", "kind": "unary", "logs": gen_logs(rng, (1, 2)), "out": {"ok": rng.randrange(100)}},
+        stream("pe", "producer", "empty", rng.choice([2, 3, 4])),
+        stream("xe", "exchange", "empty", rng.choice([2, 3])),
+        stream("pc", "producer", "x", rng.choice([3, 4])),
+        stream("xc", "exchange", "x", 3),
+    ]
+    script = [["call", "vn", 1], ["call", "vne", 1], ["call", "vi", 1], ["call", "vn", 2],
+              ["open", "pe", 1], ["iter", None], ["close"],
+              ["open", "pe", 2], ["iter", 1], ["cancel"], ["close"],
+              ["open", "xe", 1], ["send", 0], ["send", 1], ["close"],
+              ["open", "xe", 2], ["send", 0], ["cancel"], ["close"],
+              ["open", "pc", 1], ["iter", 1], ["cancel"], ["close"],
+              ["open", "xc", 1], ["send", 0], ["cancel"], ["close"],
+              ["open", "pc", 2], ["iter", None], ["close"]]
+    return {"methods": methods}, script
+
+
+def shape_case(ctx: Any, desc: dict[str, Any], script: list[list[Any]], cfg: Config) -> None:
+    by_name = {m["name"]: m for m in desc["methods"]}
+    r = opsvc.run_script(desc, script, cfg, deadline=60)
+    case = {"part": "a-shapes", "service": desc, "script": script, "transport": cfg.label()}
+    fam = "http" if cfg.kind == "http" else "socket"
+    ctx.case(case, nontrivial=True, tags=(f"t:{cfg.label()}", "shapes"))
+    if r["hung"] or len(r["trace"]) != len(script):
+        ctx.fail(case, f"C08:hung:{cfg.kind}", f"shape script did not complete on {cfg.label()} ({len(r['trace'])}/{len(script)} ops)")
+        return
+    calls = c01.split_calls(script, r["trace"])
+    sess = sessions_of(r["events"])
+    if len(sess) != len(calls):
+        ctx.fail(case, "C08:harness:sessions", f"{len(sess)} invocations for {len(calls)} calls")
+        return
+    # which sessions were cancelled by the client
+    cancelled: list[bool] = []
+    cur = False
+    for op in script:
+        if op[0] == "call":
+            cancelled.append(False)
+        elif op[0] == "open":
+            cur = False
+        elif op[0] == "cancel":
+            cur = True
+        elif op[0] == "close":
+            cancelled.append(cur)
+    for i, ((name, evs), se) in enumerate(zip(calls, sess)):
+        m = by_name[name]
+        obs = c01.upto_first_error(evs)
+        spec = emitted_session(m, se)
+        shape = ("unary-none" if m.get("ret") == "none" else "unary") if m["kind"] == "unary" else f"{m['kind']}-{m.get('schema', 'x')}{'-cancel' if cancelled[i] else ''}"
+        ccase = dict(case, call_index=i, method=name, shape=shape)
+        ctx.tag(f"shape:{shape}", f"on_cancel-ran:{se['cancel']}" if cancelled[i] else "not-cancelled")
+        if any(e[0] == "raised" for e in obs):
+            bad = next(e for e in obs if e[0] == "raised")
+            ctx.fail(ccase, f"C08:call-failed:{bad[1]}:{shape}:{fam}", f"{cfg.label()}: {name} raised {bad[1]}: {bad[2]}")
+            continue
+        if cancelled[i]:
+            # the client gave the stream up: batches it never asked for are not returned — only the logs are owed
+            sl = [e for e in spec if e[0] == "log"]
+            ol = [e for e in obs if e[0] == "log"]
+            v = delivered_violation(sl, ol)
+        else:
+            v = delivered_violation(spec, obs)
+        if v is not None:
+            ctx.fail(ccase, f"C08:{v[0]}:{shape}:{fam}", f"{cfg.label()}: call {i} ({name}, {shape}): {v[1]}")
+
+
+def shape_configs() -> list[Config]:
+    # (a cap below a unary / exchange response is an error by design — C16 — so only caps far above them here)
+    return [Config("pipe"), Config("unix"), Config("tcp"), Config("shm"), Config("http", None, None), Config("http", 1_000_000, "zstd"),
+            Config("http", None, "gzip")]
+
+
+# ---- the sink, differentially
+
+
+def gen_sink_ops(rng: Any) -> list[list[Any]]:
+    ops: list[list[Any]] = []
+    for _ in range(rng.choice([1, 2, 4, 7, 10])):
+        r = rng.random()
+        if r < 0.55:
+            ops.append(["call", gen_log(rng)])
+        elif r < 0.85:
+            ops.append(["flush", rng.random() < 0.5])
+        else:
+            ops.append(["reset"])
+    return ops
+
+
+SINK_CORPUS: list[list[list[Any]]] = [
+    [["flush", True], ["call", {"level": "INFO", "text": "a", "extra": {}}], ["call", {"level": "WARN", "text": "b", "extra": {"k": "v"}}]],
+    [["flush", False], ["call", {"level": "INFO", "text": "a", "extra": {}}]],
+    [["call", {"level": "INFO", "text": "early", "extra": {}}], ["flush", True], ["call", {"level": "INFO", "text": "late", "extra": {}}]],
+    [["call", {"level": "INFO", "text": "h", "extra": {}}], ["flush", False], ["reset"], ["call", {"level": "INFO", "text": "x", "extra": {}}], ["flush", True],
+     ["call", {"level": "DEBUG", "text": "y", "extra": {}}]],
+]
+
+
+def sink_impl(ops: list[list[Any]]) -> dict[str, Any]:
+    """Drive the real `_ClientLogSink` with real writers / schemas; `_write_message_batch` is observed, not replaced."""
+    import vgi_rpc.rpc._wire as W
+    from vgi_rpc.log import Level, Message
+
+    written: list[list[Any]] = []
+    cur: list[Any] = []
+    orig = W._write_message_batch
+
+    def spy(writer: Any, schema: Any, msg: Any, server_id: Any = None) -> None:
+        cur.append(["log", msg.level.value, msg.message, sorted([list(i) for i in (msg.extra or {}).items()])])
+        orig(writer, schema, msg, server_id=server_id)
+
+    W._write_message_batch = spy
+    opened: list[Any] = []
+    try:
+        sink = W._ClientLogSink(server_id=None)
+        for op in ops:
+            cur.clear()
+            if op[0] == "call":
+                lg = op[1]
+                sink(Message(Level(lg["level"]), lg["text"], **lg.get("extra", {})))
+            elif op[0] == "flush":
+                schema = pa.schema([]) if op[1] else svcgen.OUT_SCHEMA
+                w = ipc.new_stream(io.BytesIO(), schema)
+                opened.append(w)
+                sink.flush_contents(w, schema)
+            else:
+                sink.reset()
+            written.append(list(cur))
+        buf = [["log", m.level.value, m.message, sorted([list(i) for i in (m.extra or {}).items()])] for m in sink._buffer]
+    finally:
+        W._write_message_batch = orig
+        for w in opened:
+            with contextlib.suppress(Exception):
+                w.close()
+    return {"written": written, "buffer": buf}
+
+
+def sink_case(ctx: Any, ops: list[list[Any]]) -> None:
+    case = {"part": "sink", "ops": ops}
+    got = sink_impl(ops)
+    ctx.case(case, nontrivial=any(o[0] == "call" for o in ops), tags=("sink",))
+    # O: conservation — everything emitted is written exactly once in order, or still buffered; after a flush nothing stays buffered
+    called = [clog(o[1]) for o in ops if o[0] == "call"]
+    flat = [e for w in got["written"] for e in w]
+    if flat + got["buffer"] != called:
+        ctx.fail(case, "C08:log-dropped:sink" if len(flat + got["buffer"]) < len(called) else "C08:log-changed:sink",
+                 f"sink wrote {len(flat)} + buffered {len(got['buffer'])} of {len(called)} emitted messages")
+    attached = None
+    for o, w in zip(ops, got["written"]):
+        if o[0] == "flush":
+            attached = o[1]
+        elif o[0] == "reset":
+            attached = None
+        elif attached is not None and w != [clog(o[1])]:
+            ctx.fail(case, f"C08:log-dropped:sink-write-through:{'empty-schema' if attached else 'schema'}",
+                     f"a message emitted after flush_contents (schema empty: {attached}) was not written to the stream")
+            break
+    if ctx.driver is not None:
+        mops = [["call", c01.dlog(o[1])] if o[0] == "call" else list(o) for o in ops]
+        m = ctx.driver.call("C08.sink", {"ops": mops})
+        mod = {"written": [[c01.model_ev(e) for e in w] for w in m["written"]], "buffer": [c01.model_ev(e) for e in m["buffer"]]}
+        if mod != got:
+            ctx.mismatch(case, mod, got, "_ClientLogSink vs Lean C08.sinkStep")
 
 
 # ------------------------------------------------------------------------------------------ reserved-name extras through a real service
@@ -851,6 +1124,15 @@ def run(ctx: Any) -> None:
                 for m in prods:
                     sc += [["open", m["name"], 1], ["iter", None], ["close"]]
                 check_one(ctx, desc, sc)
+    # (a') result-schema shapes, op-level steps, on_cancel; the sink differentially
+    for ops in SINK_CORPUS:
+        sink_case(ctx, ops)
+    for _ in range(ctx.budget(300, 6000)):
+        sink_case(ctx, gen_sink_ops(rng))
+    for _ in range(ctx.budget(5, 120)):
+        desc, script = shape_service(rng)
+        for cfg in shape_configs():
+            shape_case(ctx, desc, script, cfg)
     ctx.note("wall_a_s", round(time.time() - t0, 1))
     t0 = time.time()
     # (b) direct
@@ -896,7 +1178,13 @@ def run(ctx: Any) -> None:
 
 
 def replay(ctx: Any, case: dict[str, Any]) -> None:
-    if case.get("part") == "a" and "service" in case:
+    if case.get("part") == "a-shapes":
+        for cfg in shape_configs():
+            if cfg.label() == case.get("transport"):
+                shape_case(ctx, case["service"], case["script"], cfg)
+    elif case.get("part") == "sink":
+        sink_case(ctx, case["ops"])
+    elif case.get("part") == "a" and "service" in case:
         check_one(ctx, case["service"], case["script"], only=case.get("transport"))
     elif case.get("part") == "a":
         for cfg in (Config("pipe"), Config("tcp"), Config("http", None, None), Config("http", None, "zstd")):
